@@ -40,10 +40,15 @@ FAKE, UPPER, EMPTY, PREFIX, PADDED = 1000000, 2000000, 3000000, 4000000, 5000000
 # ---------------------------------------------------------------------------------------------------
 # independent reference (property oracle): uid -> {pw, pepper, session}
 
+def secret(pepper):
+    """the Argon2 secret: no pepper and an empty pepper are the same (empty) secret"""
+    return '' if pepper == 'none' else pepper[1:]
+
+
 class Oracle:
     def __init__(self, pepper, life, refresh):
         self.users = {}          # insertion-ordered
-        self.pepper, self.life, self.refresh = pepper, life, refresh
+        self.pepper, self.life, self.refresh = secret(pepper), life, refresh
 
     def holder(self, tok):
         for u, e in self.users.items():
@@ -109,7 +114,7 @@ class Oracle:
             u = self.live(int(f[1]), now)
             return '401' if u is None else 'run:u%d' % u
         if k == 'cfg':
-            self.pepper, self.life, self.refresh = f[1], int(f[2]), int(f[3])
+            self.pepper, self.life, self.refresh = secret(f[1]), int(f[2]), int(f[3])
             return 'ok'
         return 'mark'
 
@@ -264,7 +269,7 @@ PWS = ['h68756e7465723432', 'h70617373776f726431', 'h', 'hc3a9c3a8', 'h706173737
 
 def gen_random_history(rng, maxlen=60, sleeps=0):
     nusers = rng.randint(1, 5)
-    pep = rng.choice(['none', 'none', 'h70657070', 'h00'])
+    pep = rng.choice(['none', 'none', 'h70657070', 'h00', 'h'])
     life = rng.choice([3600, 3600, 0, 86400, 1])
     refresh = rng.choice([3600, 3600, 0, 7200, U64MAX])
     n = rng.randint(8, maxlen)
@@ -357,7 +362,7 @@ def gen_random_history(rng, maxlen=60, sleeps=0):
             else:
                 ops.append('rt:' + t)
         elif r < 0.985:
-            ops.append('cfg:%s:%d:%d' % (rng.choice(['none', 'h70657070', 'h00']), rng.choice([3600, 0, 1]),
+            ops.append('cfg:%s:%d:%d' % (rng.choice(['none', 'h70657070', 'h00', 'h']), rng.choice([3600, 0, 1]),
                                          rng.choice([3600, 0, 2])))
         elif sleeps_left > 0:
             ops.append('sl:%d' % rng.choice([1050, 1100, 2100]))
@@ -571,6 +576,29 @@ def process(ctx, cases, st):
                         'stream': cases[order[idx]][1]})
 
 
+# the history of Example C17_demo_results (props/C17.v, proved by vm_compute inside Coq), in model-line form, and the
+# results stated there: the extracted runner must print the same (spot check of extraction + driver)
+DEMO_LINE = ('auth_seq none 3600 3600 cu:h6875:0:0 cu:h7077:1:1 ve:0:h6875 ve:0:h7077 ve:1:h7077 ve:9:h6875 cs:0:100:100:7 '
+             'cl:1:0:100:100:8 cs:0:101:101:9 gu:7:102 gu:8:102 rt:7:102 rt:8:102 rt:none:102 rf:8:103:103 rf:7:103:103 '
+             'gu:7:3701 gu:7:3703 cs:0:3704:3704:10 gu:7:3704 gu:10:3704 ru:0 gu:10:3705 rf:10:3705:3705 is:8 '
+             'cl:1:18446744073709551615:3706:3706:11 gu:11:4000000000')
+DEMO_RESULTS = ('ok:u0 ok:u1 true false true false ok:t7 ok:t8 err:5 ok:u0 err:4 run:u0 401 401 err:4 ok ok:u0 err:4 ok:t10 '
+                'err:4 ok:u0 ok err:4 err:4 ok ok:t11 ok:u1').split(' ')
+# refresh_old_refuted's witness on the extracted model of the OLD refresh_session
+OLD_LINE = 'auth_seq_old none 3600 3600 cu:h7077:0:0 cl:0:0:100:100:7 gu:7:100 rf:7:100:100 gu:7:101 rt:7:3000'
+OLD_RESULTS = 'ok:u0 ok:t7 err:4 ok ok:u0 run:u0'.split(' ')
+
+
+def extraction_spot_check(ctx):
+    for line, want, name in ((DEMO_LINE, DEMO_RESULTS, 'C17_demo_results'), (OLD_LINE, OLD_RESULTS, 'refresh_old_refuted')):
+        got = [x.split('|')[0] for x in hv.run_lines(hv.MODEL_BIN, [line], shards=1)[0].split(' ')]
+        ctx.count('extraction-spot-check-steps', len(want))
+        if got != want:
+            ctx.report({'line': line, 'coq_example': name}, 'extracted=' + ' '.join(got), 'vm_compute=' + ' '.join(want),
+                       cls='auth-extraction', failing_input=False,
+                       what='the extracted model runner disagrees with the results proved inside Coq by vm_compute')
+
+
 def run(ctx):
     rng = ctx.rng
     thorough = ctx.tier == 'thorough'
@@ -587,6 +615,8 @@ def run(ctx):
             cases.append((gen_expiry_history(rng), 'expiry'))
         ctx.exhaustive = True
     st = {'nsteps': 0, 'nreported': 0, 'sampled': set()}
+    if not ctx.replay:
+        extraction_spot_check(ctx)
     process(ctx, cases, st)
     if not ctx.replay:
         # the exhaustive stream, one lifetime configuration at a time (bounds the memory of the thorough tier)
